@@ -25,7 +25,7 @@ Theorem C17_uniform_stationary :
     (forall r, tlink r = (1, 0)) ->
   forall gamma u dt : R, u <> 0 ->
     exists out,
-      step OpsR a n es [] solve tlink (ones es) psi1 (fun _ => 1) gamma u dt (fun _ => 0) (fun _ => 0)
+      step OpsR a n es [] solve tlink None (ones es) psi1 (fun _ => 1) gamma u dt (fun _ => 0) (fun _ => 0)
       = Some out /\
       (forall r, so_psi _ out r = (1, 0)) /\
       (forall r, ob_mu _ (so_obs _ out) r = 0) /\
